@@ -458,3 +458,164 @@ theorem analysed_matches_iff (r : Rx) (lb la : List Nat) (mid : Rx) (L : List St
   · cases ha
 
 end Astm.Rx
+
+namespace Astm.Rx
+
+/-! ### which byte a match can start with -/
+
+/-- over-approximation: the pattern may succeed without consuming a character -/
+def emptyOk : Rx → Bool
+  | .eps => true
+  | .fail => false
+  | .cls _ => false
+  | .rep _ lo _ _ => lo == 0
+  | .opt _ => true
+  | .cat a b => emptyOk a && emptyOk b
+  | .alt a b => emptyOk a || emptyOk b
+  | .group _ body => emptyOk body
+  | .ahead _ => true
+  | .behind _ => true
+  | .eos => true
+  | .bos => true
+  | .unmodelled _ => false
+
+/-- over-approximation: a match that consumes something may start with byte `b` -/
+def firstOk : Rx → UInt8 → Bool
+  | .eps, _ => false
+  | .fail, _ => false
+  | .cls c, b => c.test b
+  | .rep c _ _ _, b => c.test b
+  | .opt body, b => firstOk body b
+  | .cat a r, b => firstOk a b || (emptyOk a && firstOk r b)
+  | .alt a r, b => firstOk a b || firstOk r b
+  | .group _ body, b => firstOk body b
+  | .ahead _, _ => false
+  | .behind _, _ => false
+  | .eos, _ => false
+  | .bos, _ => false
+  | .unmodelled _, _ => false
+
+theorem runLen_pos (c : Cls) (s : Str) (i : Nat) : ∀ fuel, 0 < runLen c s i fuel → ∃ b, s[i]? = some b ∧ c.test b = true := by
+  intro fuel h
+  cases fuel with
+  | zero => simp [runLen] at h
+  | succ n =>
+    simp only [runLen] at h
+    cases hg : s[i]? with
+    | none => simp [hg] at h
+    | some b =>
+      by_cases ht : c.test b = true
+      · exact ⟨b, rfl, ht⟩
+      · simp [hg, ht] at h
+
+/-- a match from `i` either consumes nothing (and the pattern may be empty) or starts with a byte
+    allowed by `firstOk` -/
+theorem first_byte (r : Rx) : ∀ (s : Str) (i j : Nat), j ∈ endsP r s i →
+    (emptyOk r = true ∧ j = i) ∨ ∃ b, s[i]? = some b ∧ firstOk r b = true := by
+  induction r with
+  | eps => intro s i j h; simp [endsP] at h; exact Or.inl ⟨rfl, h⟩
+  | fail => intro s i j h; simp [endsP] at h
+  | cls c =>
+    intro s i j h
+    simp only [endsP] at h
+    cases hg : s[i]? with
+    | none => simp [hg] at h
+    | some b =>
+      by_cases ht : c.test b = true
+      · exact Or.inr ⟨b, rfl, by simp [firstOk, ht]⟩
+      · simp [hg, ht] at h
+  | rep c lo hi g =>
+    intro s i j h
+    have key : ∀ n, n ≤ runLen c s i (s.length - i) →
+        j ∈ (if n < lo then [] else (repCounts n lo g).map fun k => i + k) →
+        (emptyOk (.rep c lo hi g) = true ∧ j = i) ∨ ∃ b, s[i]? = some b ∧ firstOk (.rep c lo hi g) b = true := by
+      intro n hn hj
+      by_cases hlt : n < lo
+      · simp [hlt] at hj
+      · simp only [hlt, if_false, List.mem_map] at hj
+        obtain ⟨k, hk, rfl⟩ := hj
+        have hk' := (mem_repCounts n lo g k (by omega)).mp hk
+        by_cases hk0 : k = 0
+        · subst hk0
+          left; exact ⟨by simp [emptyOk]; omega, by simp⟩
+        · right
+          obtain ⟨b, hb1, hb2⟩ := runLen_pos c s i _ (show 0 < runLen c s i (s.length - i) by omega)
+          exact ⟨b, hb1, by simp [firstOk, hb2]⟩
+    cases hi with
+    | none => exact key _ (Nat.le_refl _) (by simpa [endsP] using h)
+    | some h' => exact key _ (Nat.min_le_left _ _) (by simpa [endsP] using h)
+  | opt body ih =>
+    intro s i j h
+    simp only [endsP, List.mem_append, List.mem_singleton] at h
+    rcases h with h | h
+    · rcases ih s i j h with ⟨_, h2⟩ | ⟨b, hb1, hb2⟩
+      · exact Or.inl ⟨rfl, h2⟩
+      · exact Or.inr ⟨b, hb1, by simp [firstOk, hb2]⟩
+    · exact Or.inl ⟨rfl, h⟩
+  | cat a r iha ihr =>
+    intro s i j h
+    simp only [endsP, List.mem_flatMap] at h
+    obtain ⟨m, hm, hj⟩ := h
+    rcases iha s i m hm with ⟨ea, rfl⟩ | ⟨b, hb1, hb2⟩
+    · rcases ihr s m j hj with ⟨er, rfl⟩ | ⟨b, hb1, hb2⟩
+      · exact Or.inl ⟨by simp [emptyOk, ea, er], rfl⟩
+      · exact Or.inr ⟨b, hb1, by simp [firstOk, ea, hb2]⟩
+    · exact Or.inr ⟨b, hb1, by simp [firstOk, hb2]⟩
+  | alt a r iha ihr =>
+    intro s i j h
+    simp only [endsP, List.mem_append] at h
+    rcases h with h | h
+    · rcases iha s i j h with ⟨e, rfl⟩ | ⟨b, hb1, hb2⟩
+      · exact Or.inl ⟨by simp [emptyOk, e], rfl⟩
+      · exact Or.inr ⟨b, hb1, by simp [firstOk, hb2]⟩
+    · rcases ihr s i j h with ⟨e, rfl⟩ | ⟨b, hb1, hb2⟩
+      · exact Or.inl ⟨by simp [emptyOk, e], rfl⟩
+      · exact Or.inr ⟨b, hb1, by simp [firstOk, hb2]⟩
+  | group idx body ih =>
+    intro s i j h
+    simp only [endsP] at h
+    rcases ih s i j h with ⟨e, rfl⟩ | ⟨b, hb1, hb2⟩
+    · exact Or.inl ⟨by simpa [emptyOk] using e, rfl⟩
+    · exact Or.inr ⟨b, hb1, by simpa [firstOk] using hb2⟩
+  | ahead lit => intro s i j h; simp only [endsP] at h; split at h <;> simp at h; exact Or.inl ⟨rfl, h⟩
+  | behind lit => intro s i j h; simp only [endsP] at h; split at h <;> simp at h; exact Or.inl ⟨rfl, h⟩
+  | eos => intro s i j h; simp only [endsP] at h; split at h <;> simp at h; exact Or.inl ⟨rfl, h⟩
+  | bos => intro s i j h; simp only [endsP] at h; split at h <;> simp at h; exact Or.inl ⟨rfl, h⟩
+  | unmodelled w => intro s i j h; simp [endsP] at h
+
+/-- a class repeat with minimum `lo` consumes at least `lo` characters of the class -/
+theorem runLen_ge (c : Cls) (s : Str) : ∀ (fuel i k : Nat), k < runLen c s i fuel →
+    ∃ b, s[i + k]? = some b ∧ c.test b = true := by
+  intro fuel
+  induction fuel with
+  | zero => intro i k h; simp [runLen] at h
+  | succ n ih =>
+    intro i k h
+    simp only [runLen] at h
+    cases hg : s[i]? with
+    | none => simp [hg] at h
+    | some b =>
+      by_cases ht : c.test b = true
+      · simp only [hg, ht, if_true] at h
+        cases k with
+        | zero => exact ⟨b, by simpa using hg, ht⟩
+        | succ k' =>
+          obtain ⟨b', h1, h2⟩ := ih (i + 1) k' (by omega)
+          exact ⟨b', by rw [← h1]; congr 1; omega, h2⟩
+      · simp [hg, ht] at h
+
+theorem rep_consumes (c : Cls) (lo : Nat) (hi : Option Nat) (g : Bool) (s : Str) (i j : Nat)
+    (h : j ∈ endsP (.rep c lo hi g) s i) : ∀ k, k < lo → ∃ b, s[i + k]? = some b ∧ c.test b = true := by
+  intro k hk
+  have key : ∀ n, n ≤ runLen c s i (s.length - i) →
+      j ∈ (if n < lo then [] else (repCounts n lo g).map fun k => i + k) →
+      ∃ b, s[i + k]? = some b ∧ c.test b = true := by
+    intro n hn hj
+    by_cases hlt : n < lo
+    · simp [hlt] at hj
+    · exact runLen_ge c s (s.length - i) i k (by omega)
+  cases hi with
+  | none => exact key _ (Nat.le_refl _) (by simpa [endsP] using h)
+  | some h' => exact key _ (Nat.min_le_left _ _) (by simpa [endsP] using h)
+
+end Astm.Rx
